@@ -203,7 +203,7 @@ def parse_ev(out):
 
 
 def validate_trace(ctx, module, cfg, trace, shards=None, timeout=3000, per_shard_workers=3, classify=None,
-                   presharded=None, countable=lambda ev: ev.get("op") != "entry"):
+                   presharded=None, countable=lambda ev: ev.get("op") not in ("entry", "note")):
     """R3: validate an ndjson trace against the TLA+ trace spec, sharded over processes.
     Every countable event must be answered by exactly one EV line.  `presharded` is a list of
     self-contained shard files written by the driver (used when events refer to each other).
@@ -252,6 +252,9 @@ def validate_trace(ctx, module, cfg, trace, shards=None, timeout=3000, per_shard
             raise Infra("trace validation did not complete for %s: %d/%d events answered (see %s/tlc_error.txt)\n%s"
                         % (fn, len(seen), len(want), ctx.work, out[-3000:]))
         counted += len(want)
+        for ev in evs:       # driver notes: unexpected panics / errors of the library, broken neighbours in a batch
+            if ev.get("op") == "note":
+                mism.append((ev, ev.get("what", "")))
         for i, (st, detail) in seen.items():
             ev = evs[i - 1]
             if classify:
